@@ -47,6 +47,9 @@ def source_for(c):
     src = f"env {{ {env}: Int, }}\n" + "".join(f"party {x};\n" for x in parties) + pol
     src += f"tx transfer({', '.join(params)}) {{\n  input source {{ from: {party}, min_amount: {amount}, }}\n"
     src += f"  output {{ to: {party}, amount: source - fees, }}\n  {extra_out}\n}}\n"
+    if c["extra"] == "case_twin_tx":
+        src += (f"tx Transfer(deadline: Int, tip: Int) {{\n  input source {{ from: {party}, min_amount: Ada(tip) + fees, }}\n"
+                f"  output {{ to: {party}, amount: source - fees, }}\n  validity {{ until_slot: deadline, }}\n}}\n")
     return src
 
 
@@ -188,6 +191,18 @@ tx multi(quantity: Int, b: Bytes) {
 tx second(quantity: Int) { input source { from: Sender, min_amount: fees, } output { to: Sender, amount: source - fees, } }
 """
     sources.append(("directives", directives))
+    # names that collide once the IR folds their case (every kind of named thing, from the C13 mutants), and a transaction
+    # with three and four inputs two of which collide: whatever lowering does with a collision, it does it the same way each time
+    from . import mutants
+    for meta_, src_ in mutants.whole_program_mutants():
+        if meta_["name"].startswith("case_twin_"):
+            sources.append((meta_["name"], src_))
+    sources.append(("case_twin_inputs3", "party Sender;\nparty Receiver;\ntx t(n: Int) {\n  input Vault { from: Sender, min_amount: Ada(n), }\n"
+                    "  input vault { from: Receiver, min_amount: Ada(1), }\n  input gas { from: Sender, min_amount: fees, }\n"
+                    "  output { to: Receiver, amount: Vault + vault + gas - fees, }\n}\n"))
+    sources.append(("case_twin_inputs4", "party Sender;\nparty Receiver;\ntx t(n: Int) {\n  input a { from: Sender, min_amount: Ada(n), }\n"
+                    "  input B { from: Receiver, min_amount: Ada(1), }\n  input b { from: Sender, min_amount: fees, }\n  input A { from: Sender, min_amount: Ada(2), }\n"
+                    "  output { to: Receiver, amount: a + b - fees, }\n}\n"))
     # revisions: the same text with other digits in every hex literal (same positions, same lengths), so that state kept
     # from compiling one source in a process could be mistaken for the other's
     import re
